@@ -244,6 +244,16 @@ LIB_SHAPES = [
      ('beta', 'static', ['inner'])],
     [('inner', 'shared', []), ('middle', 'static', ['inner']),
      ('alpha', 'static', ['middle']), ('beta', 'shared', [])],
+    # a dependency listed directly AND reached through another dependency, in both orders
+    # (the forwarded list must still end up in a usable link order)
+    [('inner', 'static', []), ('middle', 'static', ['inner']),
+     ('alpha', 'static', ['inner', 'middle'])],
+    [('inner', 'static', []), ('middle', 'static', ['inner']),
+     ('alpha', 'static', ['middle', 'inner'])],
+    [('base', 'static', []), ('inner', 'static', ['base']), ('middle', 'static', ['inner']),
+     ('alpha', 'static', ['inner', 'middle'])],
+    [('base', 'static', []), ('left', 'static', ['base']), ('right', 'static', ['base', 'left']),
+     ('alpha', 'static', ['base', 'right', 'left'])],
 ]
 
 DEP_NAMES = ['dep1', 'lib-two', 'x.three', 'Dep_4', 'five+']
@@ -813,11 +823,22 @@ def render_project(c):
     for i, l in enumerate(c['libs']):
         var[l['name']] = 'lib_%d' % i
         src = 'code_%s.c' % l['name']
-        body = ''.join('int f_%s(void);\n' % d for d in l['deps'])
+        # every user of a library calls it through an entry point of its own, which lives in
+        # an archive member of its own: a static link line that names the library before one
+        # of its users then fails for exactly that user, whoever else pulled other members in
+        body = ''.join('int f_%s_for_%s(void);\n' % (d, l['name']) for d in l['deps'])
         body += 'int f_%s(void) { return %d%s; }\n' % (
-            l['name'], (i + 1) * 7, ''.join(' + f_%s()' % d for d in l['deps']))
+            l['name'], (i + 1) * 7,
+            ''.join(' + f_%s_for_%s()' % (d, l['name']) for d in l['deps']))
         files[src] = body
-        args = [repr(l['path']), 'files=[%r]' % src]
+        srcs = [src]
+        for u in c['libs']:
+            if l['name'] in u['deps']:
+                us = 'code_%s_for_%s.c' % (l['name'], u['name'])
+                files[us] = ('int f_%s(void);\nint f_%s_for_%s(void) { return f_%s(); }\n'
+                             % (l['name'], l['name'], u['name'], l['name']))
+                srcs.append(us)
+        args = [repr(l['path']), 'files=%r' % srcs]
         ctor = l.get('ctor', 'library')
         decl = l.get('decl_kind', l['kind'])
         if ctor == 'library' and decl != 'auto':
